@@ -612,10 +612,23 @@ def rule_table_shape(eng, rep, rule="C18-4.diagnostic-table-shape"):
     init = eng.fn("diagnostic_info.DiagnosticInfo.__init__")
     si = eng.fn("diagnostic_info.DiagnosticInfo.save_info_from_control")
     cols = []
+    glob = eng.prog.modules[init.module].globals
     for node in eng.prog.own_nodes(init):
         if isinstance(node, ast.Assign) and isinstance(node.targets[0], ast.Subscript) and ekey(node.targets[0].value).endswith(".data") \
                 and isinstance(node.targets[0].slice, ast.Constant) and isinstance(node.value, ast.List) and not node.value.elts:
             cols.append(node.targets[0].slice.value)
+        # table-driven:  self.data = {key: [] for key in <tuple of names>}   /   for key in <tuple>: self.data[key] = []
+        seq = None
+        if isinstance(node, ast.Assign) and ekey(node.targets[0]).endswith(".data") and isinstance(node.value, ast.DictComp) and isinstance(node.value.value, ast.List) \
+                and not node.value.value.elts and len(node.value.generators) == 1:
+            seq = node.value.generators[0].iter
+        elif isinstance(node, ast.For) and any(isinstance(x, ast.Assign) and isinstance(x.targets[0], ast.Subscript) and ekey(x.targets[0].value).endswith(".data")
+                                                and isinstance(x.value, ast.List) and not x.value.elts for x in node.body):
+            seq = node.iter
+        if isinstance(seq, ast.Name) and seq.id in glob:
+            seq = glob[seq.id]
+        if isinstance(seq, (ast.Tuple, ast.List)) and all(isinstance(e, ast.Constant) and isinstance(e.value, str) for e in seq.elts):
+            cols += [e.value for e in seq.elts]
     if not rep.require_count(rule, "columns initialised", len(cols), 20):
         return
     documented = list(eng.docs.diag_columns)
